@@ -56,8 +56,8 @@ func (s *zzScl) Sub(x, y group.Scalar) group.Scalar { s.v = zzRSub(x.(*zzScl).v,
 func (s *zzScl) Mul(x, y group.Scalar) group.Scalar { s.v = zzRMul(x.(*zzScl).v, y.(*zzScl).v); return s }
 func (s *zzScl) Neg(x group.Scalar) group.Scalar    { s.v = zzRNeg(x.(*zzScl).v); return s }
 func (s *zzScl) Inv(x group.Scalar) group.Scalar    { s.v = zzRInv(x.(*zzScl).v); return s }
-func (s *zzScl) MarshalBinary() ([]byte, error)     { panic("abstract scalar has no encoding") }
-func (s *zzScl) UnmarshalBinary([]byte) error       { panic("abstract scalar has no encoding") }
+func (s *zzScl) MarshalBinary() ([]byte, error)     { panic("ZZ-MODEL-ONLY: abstract scalar has no encoding") }
+func (s *zzScl) UnmarshalBinary([]byte) error       { panic("ZZ-MODEL-ONLY: abstract scalar has no encoding") }
 
 func (e *zzElt) Group() group.Group                  { return zzGrp{} }
 func (e *zzElt) Set(x group.Element) group.Element   { e.e = x.(*zzElt).e; return e }
@@ -86,8 +86,8 @@ func (e *zzElt) Mul(x group.Element, s group.Scalar) group.Element {
 	return e
 }
 func (e *zzElt) MulGen(s group.Scalar) group.Element  { e.e = s.(*zzScl).v; return e }
-func (e *zzElt) MarshalBinary() ([]byte, error)       { panic("abstract element has no encoding") }
-func (e *zzElt) UnmarshalBinary([]byte) error         { panic("abstract element has no encoding") }
-func (e *zzElt) MarshalBinaryCompress() ([]byte, error) { panic("abstract element has no encoding") }
+func (e *zzElt) MarshalBinary() ([]byte, error)       { panic("ZZ-MODEL-ONLY: abstract element has no encoding") }
+func (e *zzElt) UnmarshalBinary([]byte) error         { panic("ZZ-MODEL-ONLY: abstract element has no encoding") }
+func (e *zzElt) MarshalBinaryCompress() ([]byte, error) { panic("ZZ-MODEL-ONLY: abstract element has no encoding") }
 
 func zzSclVar(name string) *zzScl { return &zzScl{v: zzRVar(name)} }
